@@ -429,6 +429,11 @@ func checkC11(res *Result) {
 						res.ok("C11-R1", name, p.pos(u.ins), src+"() result (merged) used as "+u.what+" under a nil guard")
 						continue
 					}
+					// a merge of a helper's exits, of which only the successful one can reach this use
+					if rv := ff.resolveAt(u.ins, phi); rv != ssa.Value(phi) && ff.has(u.ins, rv, fNONNIL, "") {
+						res.ok("C11-R1", name, p.pos(u.ins), src+"() result (the only exit that can reach this use) used as "+u.what+" under a nil guard")
+						continue
+					}
 					key := name + "|" + src
 					if pc := preByKey[key]; pc != nil {
 						usedPre[key] = true
